@@ -17,6 +17,8 @@ func init() {
 		Quick:      all("./internal/impl", "./proto", "./encoding/protodelim", "./internal/encoding/json", "./internal/encoding/text"),
 		Thorough:   allAndLegacy("./internal/impl", "./proto", "./encoding/protodelim", "./internal/encoding/json", "./internal/encoding/text"),
 		Run: func(c *Ctx) {
+			c.ruleSetUnknownOwn("R-SETUNKNOWN-OWN")
+			c.ruleAppendCapped("R-APPEND-CAPPED", []string{"internal/encoding/text.(*Decoder).parseString"})
 			c.ruleBytesCopy("R-BYTES-COPY")
 			c.ruleAliasFlag("R-ALIAS-FLAG")
 			c.ruleInputNotMutated("R-INPUT-NOT-MUTATED", []string{"internal/encoding/json.(*Decoder).parseString", "internal/encoding/text.(*Decoder).parseString"})
